@@ -86,3 +86,19 @@ func VerifH_C04_LazyAccumulation() {
 	vAutCase(c, EvaluationKeyParameters{}, g, maxQ, "set7-gal0-maxkey-maxlevel")
 	vCover("C04-lazy-accumulation-reached")
 }
+
+// Moduli of unequal bit-sizes (parameter set 8: a 30-bit prime on top of four 61-bit primes) with power-of-two digits
+// (20 digits): the reduction cadence of the lazy accumulators must follow the largest prime in use.
+func VerifH_C04_LazyAccumulationUnequalModuli() {
+	vConfig("algebraic-samplers", "1")
+	c := VerifSetup_Ctx(8, vIsAlgebraic())
+	c.Kgen.GenSecretKey(c.Sk)
+	c.Kgen.GenSecretKey(c.Sk2)
+	maxQ, maxP := c.Params.MaxLevelQ(), c.Params.MaxLevelP()
+	evkp := EvaluationKeyParameters{LevelQ: vIntP(maxQ), LevelP: vIntP(maxP), BaseTwoDecomposition: vIntP(16)}
+	vKeySwitchCase(c, evkp, maxQ, "set8-pow2-16-L"+vItoa(maxQ))
+	if vTier() > 0 {
+		vKeySwitchCase(c, evkp, maxQ-1, "set8-pow2-16-L"+vItoa(maxQ-1))
+	}
+	vCover("C04-lazy-accumulation-unequal-reached")
+}
